@@ -112,8 +112,10 @@ type Write struct {
 	Via    int    `json:"via,omitempty"`    // 0 Row.SetX / 1 txn.X().Set / 2 SetAny
 	Delete bool   `json:"delete,omitempty"` // delete the row instead
 	SetKey bool   `json:"setkey,omitempty"` // Row.SetKey(Val)
+	Draft  bool   `json:"draft,omitempty"`  // SetKey of a key other than the one the surrounding InsertKey/UpsertKey stores afterwards
 	TTL    int64  `json:"ttl,omitempty"`    // Row.SetTTL(TTL ns) (C17)
 	Extend int64  `json:"extend,omitempty"` // txn.TTL().Extend(Extend ns) (C17)
+	Clear  bool   `json:"clear,omitempty"`  // Row.SetTTL(0) / txn.TTL().Set(0): the row no longer expires (C17)
 }
 
 // FStep is one step of a filter chain.
